@@ -53,14 +53,17 @@ def main(argv=None):
         import collections
         h = collections.Counter()
         ex = {}
+        fine = os.environ.get('VERIF_DEBUG') == 'fine'
         for part, idx, case, detail in ctx.violations:
-            key = (part, detail.get('kind'), tuple(sorted(k for k in case if k not in ('freq', 'start'))) if isinstance(case, dict) else '',
-                   case.get('freq') if isinstance(case, dict) else '')
+            key = (part, detail.get('kind'))
+            if fine and isinstance(case, dict):
+                key += (tuple(sorted(k for k in case if k not in ('freq', 'start'))), case.get('freq'))
             h[key] += 1
             ex.setdefault(key, (case, detail))
-        for key, n in sorted(h.items(), key=lambda x: -x[1])[:int(os.environ.get('VERIF_DEBUG') or 1)]:
+        for key, n in sorted(h.items(), key=lambda x: -x[1])[:40]:
             print('DEBUG', n, key)
-            print('      ', json.dumps(codec.enc(ex[key]), sort_keys=True)[:330])
+            if not fine:
+                print('      ', json.dumps(codec.enc(ex[key]), sort_keys=True)[:500])
     print("%s tier=%s seed=%d evaluations=%d transitions=%d nontrivial=%d capped=%d "
           "violations_raw=%d exhaustive=%s wall=%.1fs -> exit %d"
           % (pid, ctx.tier, seed, ctx.counts['evaluations'], ctx.counts['transitions'],
